@@ -29,13 +29,21 @@ class Batch:
     def __init__(self, ctx, stream):
         self.ctx, self.stream = ctx, stream
         self.items = []
+        self.regime = []
 
-    def add(self, what, case, impl, model_req, oracle_req=None, cmp=None):
+    def add(self, what, case, impl, model_req, oracle_req=None, cmp=None, regime_req=None):
         self.items.append((what, case, impl, model_req, oracle_req, cmp))
+        if regime_req is not None:
+            self.regime.append(regime_req)
 
     def flush(self):
         st = self.stream
         its, self.items = self.items, []
+        if self.regime:
+            # the decidable hypothesis of bk_exact, evaluated by the Model on this very input
+            for ok in self.ctx.driver.run(self.regime):
+                st.count('theorem-hypothesis exact-regime: %s' % ('holds' if ok else 'fails (tolerance deletion)'))
+            self.regime = []
         if not its:
             return
         answers = self.ctx.driver.run([it[3] for it in its])
@@ -263,7 +271,8 @@ def stream_random(ctx):
             jQ = enc_op('qubit', Q.terms)
             n = size if nq is None else nq
             b.add(variant + '(FermionOperator)', case, jQ, {'op': mop, 'n': n, 'A': jA},
-                  oracle(variant, 'fermion', n, ['op', jA], jQ) if n <= 9 else None)
+                  oracle(variant, 'fermion', n, ['op', jA], jQ) if n <= 9 else None,
+                  regime_req={'op': 'c05.fermion_ok', 'n': n, 'A': jA} if variant == 'bk' else None)
             if modes_of(jQ) > n:
                 st.violate('result acts on more than n_qubits qubits', case, {'terms': jQ})
             if variant == 'bk' and prev is not None and prev[2] == n and len(A.terms) * len(prev[0].terms) <= 9:
